@@ -14,7 +14,7 @@ RULE = ("seeded trees of Scope / until blocks (depth <= 3) with volatile and non
         "cancelled. Non-trivial = some scope was left while children were still alive or a "
         "fault was observed by its victim; distinct = distinct (event sequence per actor, fault "
         "position).")
-BUDGET = {"quick": {"cases": 900, "wall_s": 100, "chunk": 2, "per_group": 30},
+BUDGET = {"quick": {"cases": 900, "wall_s": 240, "chunk": 2, "per_group": 30},
           "thorough": {"cases": 4000, "wall_s": 1500, "chunk": 5, "per_group": 400}}
 ASSUMPTIONS = ["the owner logs the exit in the same activation in which the block ends, so any "
                "later event of a descendant is code running after the scope"]
